@@ -439,6 +439,57 @@ func runC20(c *Ctx) {
 			c.Pred("pairs", "dedup-keeps-different-names", "a="+hx(wa)+" b="+hx(wb), len(out) == 2 || canonRR(wa) == canonRR(wb), fmt.Sprint(len(out)), "2", true)
 		}
 	}
+	// the same text with the label boundaries elsewhere: a dot inside a label (wire label `a.b`) against a label boundary
+	// (wire labels `a`, `b`), in the owner and in every name of the RDATA; also with case and TTL differing
+	for i, n := 0, c.Scale(60, 1500); i < n; i++ {
+		k := 2 + r.Intn(3)
+		var labels [][]byte
+		for j := 0; j < k; j++ {
+			l := r.Bytes(1 + r.Intn(5))
+			for q := range l {
+				l[q] = "abcxyzABC019-_"[int(l[q])%14]
+			}
+			labels = append(labels, l)
+		}
+		at := r.Intn(k - 1)
+		merged := append([][]byte{}, labels[:at]...)
+		merged = append(merged, append(append(append([]byte{}, labels[at]...), '.'), labels[at+1]...))
+		merged = append(merged, labels[at+2:]...)
+		other := [][]byte{[]byte("host"), []byte("example")}
+		type shape struct {
+			typ   uint16
+			rdata func(n [][]byte) []byte
+		}
+		shapes := []shape{
+			{dns.TypeA, nil},
+			{dns.TypeNS, func(n [][]byte) []byte { return wireOf(n) }},
+			{dns.TypeMX, func(n [][]byte) []byte { return append([]byte{0, 10}, wireOf(n)...) }},
+			{dns.TypeSOA, func(n [][]byte) []byte {
+				return append(append(append([]byte{}, wireOf(other)...), wireOf(n)...), make([]byte, 20)...)
+			}},
+			{dns.TypeSRV, func(n [][]byte) []byte { return append([]byte{0, 1, 0, 2, 0, 53}, wireOf(n)...) }},
+			{dns.TypeRP, func(n [][]byte) []byte { return append(append([]byte{}, wireOf(n)...), wireOf(other)...) }},
+		}
+		sh := shapes[r.Intn(len(shapes))]
+		var wa, wb []byte
+		if sh.rdata == nil {
+			wa = assembleRR(labels, sh.typ, 1, 60, []byte{192, 0, 2, 1})
+			wb = assembleRR(merged, sh.typ, 1, uint32(60+r.Intn(2)), []byte{192, 0, 2, 1})
+		} else {
+			wa = assembleRR(other, sh.typ, 1, 60, sh.rdata(labels))
+			wb = assembleRR(other, sh.typ, 1, uint32(60+r.Intn(2)), sh.rdata(merged))
+		}
+		a, _, e1 := dns.UnpackRR(wa, 0)
+		b, _, e2 := dns.UnpackRR(wb, 0)
+		if e1 != nil || e2 != nil {
+			c.Pred("label-boundary", "generator", hx(wa)+" "+hx(wb), false, fmt.Sprint(e1, e2), "decodes", false)
+			continue
+		}
+		c.Hit("label-boundary:" + dns.Type(sh.typ).String())
+		c20Pair(c, a, b, wa, wb)
+		out := dns.Dedup([]dns.RR{dns.Copy(a), dns.Copy(b)}, nil)
+		c.Pred("label-boundary", "dedup-keeps-different-label-boundaries", "a="+hx(wa)+" b="+hx(wb), len(out) == 2, fmt.Sprint(len(out)), "2", true)
+	}
 	// the same records as they come out of differently compressed messages (Rdlength differs, the uncompressed octets do not)
 	for i := 0; i < c.Scale(300, 6000); i++ {
 		m := new(dns.Msg)
